@@ -179,6 +179,56 @@ Proof.
   rewrite M, ofnat_len. destruct (c1 =? i)%Z; ring.
 Qed.
 
+(* symmetry needs the neighbour relation (connectivity.cell_to_cell) to be symmetric and closed on the cell range *)
+Definition nb_symmetric (nb : Z -> list Z) (nc : Z) : Prop :=
+  forall a b, (0 <= a < nc)%Z -> (0 <= b < nc)%Z -> count_occ Z.eq_dec (nb a) b = count_occ Z.eq_dec (nb b) a.
+Definition nb_closed (nb : Z -> list Z) (nc : Z) : Prop :=
+  forall a b, (0 <= a < nc)%Z -> In b (nb a) -> (0 <= b < nc)%Z.
+
+Lemma lsum_count (l : list Z) (j : Z) :
+  lsum (fun c => if (c =? j)%Z then 1 else 0) l = ofnat O (count_occ Z.eq_dec l j).
+Proof.
+  unfold ofnat. induction l as [|c l IH]; cbn [Proofs_Dual.lsum count_occ].
+  - symmetry. exact Hof0.
+  - rewrite IH. destruct (Z.eq_dec c j) as [->|Hn].
+    + rewrite Z.eqb_refl, HofS. reflexivity.
+    + apply Z.eqb_neq in Hn. rewrite Hn. ring.
+Qed.
+
+Theorem tl_gen_symm (nb : Z -> list Z) (nc : Z) : nb_symmetric nb nc -> nb_closed nb nc -> symm T O (tl_gen O nb nc).
+Proof.
+  intros Hsym Hcl.
+  assert (EN : forall i j, entry O (tl_gen O nb nc) i j =
+                 if ((0 <=? i)%Z && (i <? nc)%Z)
+                 then (if (i =? j)%Z then ofnat O (length (nb i)) else 0) - ofnat O (count_occ Z.eq_dec (nb i) j)
+                 else 0).
+  { intros i j. unfold tl_gen. rewrite entry_blocks.
+    2:{ intros c. unfold rows_are, tl_diag, tl_off. constructor; [reflexivity|].
+        apply Forall_forall. intros t Ht. apply in_map_iff in Ht. destruct Ht as [b [<- _]]. reflexivity. }
+    2:{ apply NoDup_zrange. }
+    rewrite existsb_zrange. destruct ((0 <=? i)%Z && (i <? nc)%Z); [|reflexivity].
+    unfold tl_diag, tl_off. cbn [entry]. rewrite Z.eqb_refl. cbn [andb].
+    assert (M : entry O (map (fun c2 : Z => (i, c2, - (1))) (nb i)) i j =
+                - lsum (fun c => if (c =? j)%Z then 1 else 0) (nb i)).
+    { induction (nb i) as [|b l IH]; cbn [map entry Proofs_Dual.lsum]; [ring|].
+      rewrite Z.eqb_refl, IH. cbn [andb]. destruct (b =? j)%Z; ring. }
+    rewrite M, lsum_count. destruct (i =? j)%Z; ring. }
+  intros i j. rewrite !EN.
+  destruct (Z.eq_dec i j) as [->|Hij]; [reflexivity|].
+  assert (E1 : (i =? j)%Z = false) by (apply Z.eqb_neq; exact Hij).
+  assert (E2 : (j =? i)%Z = false) by (apply Z.eqb_neq; congruence).
+  rewrite E1, E2.
+  destruct ((0 <=? i)%Z && (i <? nc)%Z) eqn:Ri, ((0 <=? j)%Z && (j <? nc)%Z) eqn:Rj.
+  - rewrite (Hsym i j) by lia. reflexivity.
+  - assert (Z0 : count_occ Z.eq_dec (nb i) j = 0%nat).
+    { apply count_occ_not_In. intros Hin. pose proof (Hcl i j ltac:(lia) Hin). lia. }
+    rewrite Z0. unfold ofnat. cbn [Z.of_nat]. rewrite Hof0. ring.
+  - assert (Z0 : count_occ Z.eq_dec (nb j) i = 0%nat).
+    { apply count_occ_not_In. intros Hin. pose proof (Hcl j i ltac:(lia) Hin). lia. }
+    rewrite Z0. unfold ofnat. cbn [Z.of_nat]. rewrite Hof0. ring.
+  - reflexivity.
+Qed.
+
 (* ------------------------------------------------------------------ mass matrices: diagonal, totals *)
 Lemma diag_from_offdiag (d : list T) k i j : i <> j -> entry O (diag_from k d) i j = 0.
 Proof.
